@@ -251,7 +251,7 @@ func run(c *fw.Ctx) {
 	}
 	// time.Sleep sleeps in slices of 10 ms and looks at the VM between them: durations around that slice, through the
 	// route without a VM as well (the pool above stops at 1 ms because blocking is what Sleep is for)
-	c.Family("time.Sleep:durations", "durations 0, 1 ms, 10 ms, 10 ms + 1 ns, 25 ms through Call (no VM), CallEx with a VM and a script call")
+	c.Family("time.Sleep:durations", "durations 0, 1 ms, 10 ms, 10 ms + 1 ns, 25 ms through Call, CallEx with and without a VM and a script call")
 	sleep := utime.Module["Sleep"]
 	for _, d := range []int64{0, 1000000, 10000000, 10000001, 25000000} {
 		if !c.Next() {
@@ -272,6 +272,9 @@ func run(c *fw.Ctx) {
 			c.Mark("callex|" + desc)
 			o, err, pan = protect(func() (ugo.Object, error) { return ex.CallEx(ugo.NewCall(e.vm, []ugo.Object{ugo.Int(d)})) })
 			rep("callex", o, err, pan)
+			c.Mark("callex-novm|" + desc)
+			o, err, pan = protect(func() (ugo.Object, error) { return ex.CallEx(ugo.NewCall(nil, []ugo.Object{ugo.Int(d)})) })
+			rep("callex-novm", o, err, pan)
 		}
 		c.Mark("script|" + desc)
 		vm := ugo.NewVM(e.callBC)
@@ -352,6 +355,13 @@ func (e *env) call(cl callable, idx []int) {
 			c.Mark("callex|" + desc)
 			o, err, pan = protect(func() (ugo.Object, error) { return ex.CallEx(ugo.NewCall(e.vm, e.args(idx))) })
 			report("callex", o, err, pan)
+			// the same entry point with a Call that carries no VM (ugo.NewCall(nil, ...), what a host writes when it
+			// calls a module function directly)
+			if len(idx) <= 2 {
+				c.Mark("callex-novm|" + desc)
+				o, err, pan = protect(func() (ugo.Object, error) { return ex.CallEx(ugo.NewCall(nil, e.args(idx))) })
+				report("callex-novm", o, err, pan)
+			}
 			// arguments split between positional and variadic part, as the VM passes them for f(a, ...rest)
 			if len(idx) >= 2 {
 				c.Mark("callex-split|" + desc)
